@@ -237,7 +237,7 @@ class ReduceProp(Prop):
             if i in mout:
                 model, spec = parse_model_output(mout[i])
                 rep.dist["model:" + model["kind"]] += 1
-                d1 = cmp_impl_model(c, im, model)
+                d1 = self.filter_tie(c, cmp_impl_model(c, im, model), im, orc)
                 if d1:
                     # inside the cell of a recorded open defect the implementation's output is unspecified (e.g. numbagg's
                     # uninitialised slots for empty groups, finding F9): the defect is reported through KNOWN-FINDING, the
@@ -262,6 +262,10 @@ class ReduceProp(Prop):
                                 "plan": core.jsonable(plan), "model_line_out": mout.get(i)})
         if len(cases) > 1:
             self.after_cases(cases, impls, rep)
+
+    def filter_tie(self, c, d1, im, orc):
+        """hook: a property may judge a model/implementation difference with its own comparison mode"""
+        return d1
 
     def after_cases(self, cases, impls, rep: Report):
         """hook for streams that reuse the evaluated cases (C20: integer widths) or add their own (C01: kernels)"""
@@ -635,12 +639,61 @@ class C20(ReduceProp):
                 if c.chunks is not None:
                     c.chunks = gen_chunks(rng, len(c.vals))
             else:
-                c = make_case(rng, funcs=["var", "std", "nanvar", "nanstd"], dtypes=["float64"], streams=["finite", "nan"],
-                              nmax=30, mcs=(None,))
-                c.vals = [v if v != v else rng.randint(-800, 800) / 8.0 for v in c.vals]
+                if (i // 3) % 3 == 1:
+                    # narrow integers near the ends of their range: differences and squares must not wrap at the input width
+                    c = make_case(rng, funcs=["var", "std", "nanvar", "nanstd"], dtypes=["int8", "int16", "int32", "uint8"],
+                                  nmax=30, mcs=(None,), fills=(None, None, NAN))
+                    hi = {"int8": 127, "int16": 32767, "int32": 70000, "uint8": 255}[c.dtype]
+                    lo = 0 if c.dtype == "uint8" else -hi
+                    c.vals = [rng.choice([hi, hi - 1, lo, lo + 1, hi // 2, 1, 0]) for _ in c.vals]
+                else:
+                    c = make_case(rng, funcs=["var", "std", "nanvar", "nanstd"], dtypes=["float64"], streams=["finite", "nan"],
+                                  nmax=30, mcs=(None,))
+                    c.vals = [v if v != v else rng.randint(-800, 800) / 8.0 for v in c.vals]
             if legal(c):
                 return c
         return c
+
+    def direct_check(self, c, impl, oracle):
+        d = super().direct_check(c, impl, oracle)
+        if not d or c.func not in ("var", "std", "nanvar", "nanstd") or not d.startswith("label ") or impl["kind"] != "ok":
+            return d
+        # "well-conditioned ... to floating-point accuracy": the one-pass formula (sum of squares minus squared sum) that
+        # numbagg and the chunked path use carries an absolute error of the order eps * sum(x**2); a group whose mean is
+        # huge against its spread is ill-conditioned for it.  Accept differences within 1e-12 * sum(x**2) of the variance
+        # (wrap-around defects are off by the order of max(x)**2 itself).
+        import numpy as np
+
+        groups = np.asarray(impl["groups"]).reshape(-1).tolist()
+        vals = np.asarray(impl["vals"]).reshape(-1).tolist()
+        for g, ov in zip(oracle["groups"], oracle["vals"]):
+            if ov is None or not self.in_domain(c, g):
+                continue
+            ms = [float(v) for v, l in zip(c.vals, c.labels) if l is not None and l == g and not (isinstance(v, float) and v != v)]
+            tol = 1e-12 * sum(x * x for x in ms) + 1e-9 * abs(float(ov)) if ov == ov else 0.0
+            try:
+                iv = float(vals[groups.index(g)])
+            except Exception:  # noqa
+                return d
+            o = float(ov)
+            if o != o:
+                if iv == iv:
+                    return d
+                continue
+            if "std" in c.func:
+                # compare variances
+                iv, o = iv * iv, o * o
+                tol = 1e-12 * sum(x * x for x in ms) + 2e-9 * abs(o)
+            if not abs(iv - o) <= tol:
+                return d
+        return None
+
+    def filter_tie(self, c, d1, im, orc):
+        # the model is exact; for var / std the implementation's one-pass arithmetic is judged with the condition-aware tolerance
+        # of `direct_check` (model = specification = oracle on these cases, tie2 checks the latter equality)
+        if d1 and c.func in ("var", "std", "nanvar", "nanstd") and d1.startswith("value differs") and self.direct_check(c, im, orc) is None:
+            return None
+        return d1
 
     # width tie (second sentence of C20) -------------------------------------------------------------
     IW_OPS = {"sum": "sum", "nansum": "sum", "prod": "prod", "nanprod": "prod"}
